@@ -25,7 +25,7 @@ type c10CCmd struct {
 	G   bool `short:"g"`
 	Pos struct {
 		Q1   string
-		Nums []int
+		Nums []int `base:"16"` // digits are read in the field's own base
 	} `positional-args:"yes"`
 }
 type c10C struct {
@@ -45,6 +45,19 @@ type c10D struct {
 		Rest []string
 	} `positional-args:"yes"`
 	Rm c10DSub `command:"rm" alias:"r"`
+}
+
+// c10Int: the value a digit string denotes for the int fields of declaration
+// decl (declaration 2 reads them in base 16).
+func c10Int(decl int, w string) int {
+	if decl != 2 {
+		return refAtoiSmall(w)
+	}
+	n := 0
+	for i := 0; i < len(w); i++ {
+		n = n*16 + int(w[i]-'0')
+	}
+	return n
 }
 
 // H_C10_bind: n words interleaved with options and an optional terminator.
@@ -165,7 +178,7 @@ func H_C10_bind(v *V) {
 	for i := 0; i < nfields; i++ {
 		if i < n {
 			if intField(i) {
-				want = append(want, refItoa(refAtoiSmall(words[i])))
+				want = append(want, refItoa(c10Int(decl, words[i])))
 			} else {
 				want = append(want, words[i])
 			}
@@ -180,7 +193,7 @@ func H_C10_bind(v *V) {
 	for i := nfields; i < n; i++ {
 		if hasSlice {
 			if intField(i) {
-				want = append(want, refItoa(refAtoiSmall(words[i])))
+				want = append(want, refItoa(c10Int(decl, words[i])))
 			} else {
 				want = append(want, words[i])
 			}
